@@ -428,6 +428,7 @@ func checkProjected(c projCase) ev.Outcome {
 		o.Counts["subdivided_but_error_below_half_tol"] = 1
 	}
 	o.NonTrivial = len(chain) >= 3 && worst > 0.5*c.Tol
-	o.Ratios = map[string]float64{"chain_to_geodesic_err/tol": worst / c.Tol, "geodesic_to_chain_err/tol": worstBack / c.Tol}
+	// reported net of the 1e-14 round-off allowance, so that a ratio > 1 is a breach at any tolerance
+	o.Ratios = map[string]float64{"chain_to_geodesic_err/tol": math.Max(0, worst-absSlack) / c.Tol, "geodesic_to_chain_err/tol": math.Max(0, worstBack-absSlack) / c.Tol}
 	return o
 }
